@@ -166,18 +166,21 @@ package didstore
 
 //@ func deactivatedAtResolveTime
 //@   prop C10
+//@   nullable resolveMetadata
 //@   pure
 //@   ensures [in-effect-at-the-requested-moment] result <==> (resolveMetadata != nil && !resolveMetadata.AllowDeactivated && resolveMetadata.ResolveTime != nil
 //@        && resolveMetadata.Hash == nil && resolveMetadata.SourceTransaction == nil && !metadata.Updated.After(*resolveMetadata.ResolveTime))
 
 //@ func latestNonDeactivatedRequested
 //@   prop C10
+//@   nullable resolveMetadata
 //@   pure
 //@   ensures [nil-metadata-asks-for-the-latest-active] resolveMetadata == nil ==> result
 //@   ensures [only-without-filters] result && resolveMetadata != nil ==> resolveMetadata.ResolveTime == nil && resolveMetadata.Hash == nil && resolveMetadata.SourceTransaction == nil && !resolveMetadata.AllowDeactivated
 
 //@ func matches
 //@   prop C10
+//@   nullable resolveMetadata
 //@   modifies nothing
 //@   loop 1 invariant true
 //@   ensures [deactivated-only-when-allowed] result && metadata.Deactivated ==> resolveMetadata != nil && resolveMetadata.AllowDeactivated
@@ -195,6 +198,7 @@ package didstore
 
 //@ func (*store).Resolve$1
 //@   prop C10
+//@   nullable resolveMetadata
 //@   loop 1 invariant !did(call readMetadata #1) || !isNilIface(ret(call readMetadata #1).1)
 //@        || !( ret(call readMetadata #1).0.Deactivated && (latestNonDeactivatedRequested(resolveMetadata) || (resolveMetadata != nil && !resolveMetadata.AllowDeactivated && resolveMetadata.ResolveTime != nil && resolveMetadata.Hash == nil && resolveMetadata.SourceTransaction == nil && !ret(call readMetadata #1).0.Updated.After(*resolveMetadata.ResolveTime))) )
 //@   call readDocument #1 requires [version-matches-and-no-deactivation-was-passed-over] isNilIface(ret(call readMetadata #1).1) && same(metadata, ret(call readMetadata #1).0)
